@@ -4,7 +4,8 @@ package discovery
 
 import (
 	"context"
-	"fmt"
+	"encoding/hex"
+	"sort"
 	"testing"
 
 	"github.com/smartcontractkit/libocr/commontypes"
@@ -38,19 +39,31 @@ func vC01DTarget(r *vRand, thr, n int) int {
 	return c
 }
 
-// address value v: 0 = one of the isZero forms, else a distinct non-zero byte string
+// address value v: 0 = one of the isZero forms; 1 = value A; 2.. = values that differ from A in exactly one respect
+// (last byte, first byte, one more trailing zero byte, one leading zero byte)
 func vC01DAddr(r *vRand, v int) cciptypes.UnknownAddress {
-	if v == 0 {
+	switch v {
+	case 0:
 		return vPick(r, []cciptypes.UnknownAddress{nil, {}, {0}, {0, 0, 0, 0}})
+	case 1:
+		return cciptypes.UnknownAddress{0xD0, 1}
+	case 2:
+		return cciptypes.UnknownAddress{0xD0, 2}
+	case 3:
+		return cciptypes.UnknownAddress{0xD1, 1}
+	case 4:
+		return cciptypes.UnknownAddress{0xD0, 1, 0}
+	default:
+		return cciptypes.UnknownAddress{0, 0xD0, 1}
 	}
-	return cciptypes.UnknownAddress{0xD0, byte(v)}
 }
 
+// identity of an address = its raw bytes (hand-written encoding, independent of any String()/"%v" of the code under test)
 func vC01DAddrID(in *vIntern, a cciptypes.UnknownAddress) uint64 {
 	if vC01IsZero(a) {
 		return 0
 	}
-	return in.Id(fmt.Sprintf("%v", a))
+	return in.Id(hex.EncodeToString(a))
 }
 
 // reference for "no non-zero byte" used only to pick the id 0; the implementation's own isZero decides what is skipped
@@ -170,19 +183,32 @@ func TestVerif_C01_disc(t *testing.T) {
 				}
 				ta := vC01DTarget(r, thr, nOr)
 				tb := 0
-				if r.Chance(1, 3) {
-					tb = vC01DTarget(r, thr, nOr)
+				bv := 2
+				order := r.Perm(nOr)
+				if r.Chance(1, 2) {
+					tb = vPick(r, []int{1, 1, vC01DTarget(r, thr, nOr)})
+					bv = r.Range(2, 5)
+					// the first holder of the competing value has the lowest / the highest oracle id
+					if mode := r.Intn(3); mode != 0 && ta < nOr {
+						best := 0
+						for k := range order {
+							if (mode == 1 && ids[order[k]] < ids[order[best]]) || (mode == 2 && ids[order[k]] > ids[order[best]]) {
+								best = k
+							}
+						}
+						order[ta], order[best] = order[best], order[ta]
+					}
 				}
 				tz := 0
 				if r.Chance(1, 3) {
 					tz = vPick(r, []int{1, 2, 3, thr, thr + 1})
 				}
-				for j, oi := range r.Perm(nOr) {
+				for j, oi := range order {
 					switch {
 					case j < ta:
 						put(oi, name, c.sel, vC01DAddr(r, 1))
 					case j < ta+tb:
-						put(oi, name, c.sel, vC01DAddr(r, 2))
+						put(oi, name, c.sel, vC01DAddr(r, bv))
 					case j < ta+tb+tz:
 						put(oi, name, c.sel, vC01DAddr(r, 0))
 					}
@@ -212,6 +238,9 @@ func TestVerif_C01_disc(t *testing.T) {
 		}}
 		cdp := NewContractDiscoveryProcessor(logger.Nop(), &rd, nil, dest, F, idmap)
 		order := r.Perm(nOr)
+		if r.Chance(1, 2) { // ascending oracle id, as libocr hands them over
+			sort.Slice(order, func(a, b int) bool { return ids[order[a]] < ids[order[b]] })
+		}
 		aos := make([]plugincommon.AttributedObservation[dt.Observation], nOr)
 		for k, oi := range order {
 			aos[k] = plugincommon.AttributedObservation[dt.Observation]{OracleID: ids[oi], Observation: obs[oi]}
